@@ -11,6 +11,7 @@
 #include <fcntl.h>
 #include <signal.h>
 #include <unistd.h>
+#include <sys/mman.h>
 #include <sys/socket.h>
 #include <sys/un.h>
 #include <netinet/in.h>
@@ -36,7 +37,7 @@ struct W {
   struct evhttp *http = nullptr;
   struct bufferevent_rate_limit_group *grp = nullptr; struct ev_token_bucket_cfg *cfg = nullptr; bool limited = false, in_group = false;
   int failed_calls = 0, faults_consumed = 0; int once_pending = 0;
-  const char *last_op = ""; int waits = 0; int cb_ctl = 0;
+  const char *last_op = ""; int waits = 0; int cb_ctl = 0; int gai_outstanding = 0;   // evdns_getaddrinfo requests whose callback has not run yet
 };
 W *G;
 
@@ -64,6 +65,7 @@ enum bufferevent_filter_result filt(struct evbuffer *src, struct evbuffer *dst, 
 void lev_cb(struct evconnlistener *, evutil_socket_t fd, struct sockaddr *, int, void *) { close(fd); }
 void lev_err(struct evconnlistener *, void *) {}
 void dns_cb(int, char, int, int, void *, void *) { if (G) G->dreq = nullptr; }
+void gai_cb(int err, struct evutil_addrinfo *res, void *) { if (err) G->failed_calls++; if (res) evutil_freeaddrinfo(res); if (G->gai_outstanding > 0) G->gai_outstanding--; }
 void http_cb(struct evhttp_request *req, void *) { evhttp_send_reply(req, 200, "OK", nullptr); }
 void buf_cb(struct evbuffer *, const struct evbuffer_cb_info *, void *) {}
 
@@ -229,7 +231,18 @@ extern "C" int LLVMFuzzerTestOneInput(const uint8_t *data, size_t size) {
           int k = s.below(9); OP("evdns_base_set_option", r = evdns_base_set_option(w.dns, opts[k][0], opts[k][1])); note(r); OP("evdns_base_search_add", evdns_base_search_add(w.dns, "example.test")); OP("evdns_base_count_nameservers", (void)evdns_base_count_nameservers(w.dns)); } break;
       case 34: if (w.dns && !w.dreq) { OP("evdns_base_resolve_ipv4", w.dreq = evdns_base_resolve_ipv4(w.dns, s.flag() ? "host.example.test" : "a..b", s.flag() ? DNS_QUERY_NO_SEARCH : 0, (evdns_callback_type)dns_cb, nullptr)); if (!w.dreq) w.failed_calls++; } break;
       case 35: if (w.dns && w.dreq) { OP("evdns_cancel_request", evdns_cancel_request(w.dns, w.dreq)); w.dreq = nullptr; OP("event_base_loop", event_base_loop(w.base, EVLOOP_NONBLOCK)); } break;
-      case 36: if (w.dns) { OP("evdns_base_clear_nameservers_and_suspend", r = evdns_base_clear_nameservers_and_suspend(w.dns)); OP("evdns_base_resume", r = evdns_base_resume(w.dns)); OP("evdns_base_free", evdns_base_free(w.dns, s.flag())); w.dns = nullptr; w.dreq = nullptr; } break;
+      case 36: if (w.dns) {
+                 // a hosts table and getaddrinfo lookups answered from it (synchronously, under the base lock) or sent to DNS and cancelled
+                 if (s.flag()) { int mf = memfd_create("hosts", MFD_CLOEXEC); if (mf >= 0) { static const char H[] = "10.9.8.7 hosty.test alias.test\n::9 hosty.test\n"; (void)!write(mf, H, sizeof H - 1);
+                     char path[64]; snprintf(path, sizeof path, "/proc/self/fd/%d", mf); OP("evdns_base_load_hosts", r = evdns_base_load_hosts(w.dns, path)); note(r); close(mf); }
+                   struct evutil_addrinfo hints; memset(&hints, 0, sizeof hints); hints.ai_family = s.pick((const int[]){AF_UNSPEC, AF_INET, AF_INET6}); hints.ai_socktype = s.flag() ? SOCK_STREAM : 0; hints.ai_flags = s.flag() ? EVUTIL_AI_CANONNAME : 0;
+                   struct evdns_getaddrinfo_request *gr = nullptr;
+                   OP("evdns_getaddrinfo", gr = evdns_getaddrinfo(w.dns, s.flag() ? "hosty.test" : "elsewhere.test", s.flag() ? "80" : nullptr, &hints, gai_cb, nullptr));
+                   // (a loop turn lets the cancelled sub-requests report before the base is freed below: freeing at once is the listed C34 finding asan:heap-use-after-free@evdns_getaddrinfo_gotresolve)
+                   if (gr) { w.gai_outstanding++; OP("evdns_getaddrinfo_cancel", evdns_getaddrinfo_cancel(gr)); } }
+                 for (int k = 0; k < 4 && w.gai_outstanding > 0; k++) OP("event_base_loop", event_base_loop(w.base, EVLOOP_NONBLOCK));
+                 if (w.gai_outstanding > 0) break;   // its callback has not run yet: the base is freed by a later op or by the teardown
+                 OP("evdns_base_clear_nameservers_and_suspend", r = evdns_base_clear_nameservers_and_suspend(w.dns)); OP("evdns_base_resume", r = evdns_base_resume(w.dns)); OP("evdns_base_free", evdns_base_free(w.dns, s.flag())); w.dns = nullptr; w.dreq = nullptr; } break;
       // ---- evhttp objects
       case 37: if (!w.http) { OP("evhttp_new", w.http = evhttp_new(w.base)); if (w.http) { OP("evhttp_set_cb", r = evhttp_set_cb(w.http, "/a", http_cb, nullptr)); note(r); OP("evhttp_set_cb(dup)", r = evhttp_set_cb(w.http, "/a", http_cb, nullptr)); note(r);
                    OP("evhttp_del_cb", r = evhttp_del_cb(w.http, "/zz")); note(r); OP("evhttp_set_gencb", evhttp_set_gencb(w.http, http_cb, nullptr)); OP("evhttp_add_server_alias", r = evhttp_add_server_alias(w.http, "alias.test")); note(r);
@@ -256,6 +269,7 @@ extern "C" int LLVMFuzzerTestOneInput(const uint8_t *data, size_t size) {
   if (w.bev[3]) { OP("bufferevent_free", bufferevent_free(w.bev[3])); w.bev[3] = nullptr; }
   for (auto &b : w.bev) if (b) { OP("bufferevent_free", bufferevent_free(b)); b = nullptr; }
   if (w.lev) OP("evconnlistener_free", evconnlistener_free(w.lev));
+  for (int k = 0; k < 4 && w.dns && w.gai_outstanding > 0; k++) OP("event_base_loop", event_base_loop(w.base, EVLOOP_NONBLOCK));
   if (w.dns) OP("evdns_base_free", evdns_base_free(w.dns, 1));
   if (w.http) OP("evhttp_free", evhttp_free(w.http));
   OP("event_base_loop", event_base_loop(w.base, EVLOOP_NONBLOCK));
